@@ -1198,6 +1198,8 @@ class SQLModel:
                 )
                 for k in excess_sub_declared_keys:
                     del subsql.declared_term_dependencies[k]
+                # the merged select now computes this node, not the inner extend: it must not share a CTE cache key with other uses of the inner step
+                subsql.ops_key = f"extend({extend_node}, {subsql.terms.keys()})"
                 return subsql
         view_name = "extend_" + str(temp_id_source[0])
         temp_id_source[0] = temp_id_source[0] + 1
